@@ -102,6 +102,11 @@ CLAIMED["C17"] = (
     COMMON_TRUST + " setResult's SCT branch, GroupByLogs, populate and Compatible's composition are not under verified contracts (maps of maps / nested iteration); the Submitter is assumed not to touch the submission state; goroutine interleavings are not modelled (the state machine's methods are proved as sequential critical sections under their mutex).",
 )
 
+CLAIMED["C10"] = (
+    "Deductive proof, for all byte strings, of the DER leaf decoders of the fork against X.690: BOOLEAN (one octet, 00 or FF), INTEGER (accepted exactly when non-empty and minimal, or lax; at most eight octets for int64, value is the sign-extended big-endian reading, int32 exactly when it fits), BIT STRING (padding count below eight, none without content, padding bits zero), base-128 integers (one to five octets delimited by the continuation bit, below 2^31, never a leading 0x80), OBJECT IDENTIFIER (first arc pair unpacked from the first integer, empty content only in lax mode), identifier and length octets (class, constructed bit, low tags inline and high tags minimal and at least 31; definite lengths below 2^31, short form is the octet itself, long form only for 128 and more without leading zero), the PrintableString alphabet and the two guessing predicates; lax mode is proved to add acceptances only of the documented kinds (non-minimal integers, empty OIDs, PrintableString contents that read as ISO 8859-1 or T.61) and, in the reflective walker itself, every leaf decoder, every struct field and every sequence element is proved to be handed the lax flag of the enclosing field; parseField and parseSequenceOf consume a prefix of the input and UnmarshalWithParams returns no remainder on failure; the encoders' INTEGER, length and base-128 lengths are proved to be the least that fit. One strictness difference to encoding/asn1 of the installed toolchain was found by the 'never a leading 0x80' clause and repaired (F10).",
+    COMMON_TRUST + " Not decided here: what the reflective walker stores for every Go target type (reflection is outside the memory model; it is verified only for panics of its own index arithmetic being excluded by `may panic`, offsets and flag propagation), time and string conversions (time.Parse, utf8, big.Int are external), the byte-for-byte re-marshalling clause beyond the length functions, and a mechanical comparison of every leaf with the GOROOT sources (the contracts are written from X.690, which is also what encoding/asn1 implements; only the base-128 difference was replayed against encoding/asn1).",
+)
+
 NOT_YET = "contracts for this property are not yet discharged by the generator in this revision; no other technique is substituted"
 NOT_APPLICABLE = {}
 
